@@ -138,11 +138,11 @@ def _json_leg(serial_root_model, cls):
 # ---------------------------------------------------------------------------
 @lemma("C05", params=[(k,) for k in range(N_LEAF + 5)],
        unbounded="all string and integer leaves (names, ids, extension ids, variable indices, nat arguments); bounds symbolic",
-       bounds="one task per outermost type kind; nesting depth 1 (quick) / 2 (thorough); rows of <= 1 (quick) / 2 (thorough) types",
+       bounds="one task per outermost type kind; nesting depth 1; rows of <= 1 (quick) / 2 (thorough) types",
        outside="deeper nesting", opts={"max_paths": 200000, "timeout_s": 2000, "optional_clauses": ["sugar_type_equals_general_sum"]})
 def type_roundtrip(kind):
     _n[0] = 0
-    depth = P(1, 2)
+    depth = P(1, 1)   # (rows of <= 1 element quick / <= 2 thorough; depth 2 multiplies to ~10^9 expressions)
     if kind < N_LEAF:
         t = leaf_type(kind)
     else:
@@ -217,10 +217,10 @@ def some_value(tag, depth):
 
 
 @lemma("C05", unbounded="string / integer leaves of extension constants; the tag of a general sum value",
-       bounds="values of nesting depth <= 1 (quick) / 2 (thorough), <= 2 fields per level", opts={"max_paths": 200000, "timeout_s": 2000})
+       bounds="values of nesting depth <= 1, <= 2 fields per level", opts={"max_paths": 200000, "timeout_s": 2000})
 def value_roundtrip():
     _n[0] = 0
-    v = some_value("v", P(1, 2))
+    v = some_value("v", P(1, 1))
     s = v._to_serial_root()
     if not sym.symbolic():
         s = _json_leg(s, sops.Value)
